@@ -47,7 +47,11 @@ def evaluate(case):
     kw = case["kw"]
     name = case["entry"].split(".")[1]
     X, Y = name.split("_using_")
-    out, (r, gr, q, fq, cutoff, dgr, dfq) = run(case)
+    try:
+        out, (r, gr, q, fq, cutoff, dgr, dfq) = run(case)
+    except Exception as ex:  # noqa: BLE001
+        return [f"{name}: raises {type(ex).__name__} ({str(ex)[:60]}) on a Q grid stored in {case.get('qorder', 'ascending')} order "
+                f"({len(case['args'][2])} Q points, {len(case['args'][0])} r points)"]
     # the caller's arrays must be what they were: otherwise removed + corrected no longer adds back to the input the caller holds,
     # and a second call on the same arrays filters already-filtered data
     ff = impl.obj("FourierFilter")
